@@ -60,6 +60,10 @@ CHECKS = {
    technique="fault enumeration with victim processes (RLIMIT_FSIZE-bounded writes and kill points) + property-based generation (rapid) of the remaining parameters, strict byte-identity oracle after restart",
    text="A victim process (the harness binary re-executed) spills chunks through the real hybrid buffer with a memory window of 2 and suffers one fault while one chunk file is written: the write stops at byte k because of RLIMIT_FSIZE (error path: short write then EFBIG), the same followed by SIGKILL right after the partial write (crash mid-write at offset k), SIGKILL at the kill points after open / write / close / rename (hook H1), or the file is found empty at the next start. k is enumerated 0..size for sizes {1,7,48} (quick) or every size 1..48 (thorough) for the affected chunk first, in the middle and last; rapid adds sizes up to 200 KB. The parent restarts a buffer on the directory with a strict consumer: every delivered chunk must be byte-identical to a produced one, the affected chunk intact or absent (and counted as dropped when the victim survived), every other persisted chunk delivered.",
    note="Only process death and failing/short syscalls are modelled; reordering or loss below the file system (no fsync model) is out of reach. The Go runtime does not let SIGXFSZ terminate the process, so the 'default action' variant is the same error path as the ignored one (kept as evidence). Damage to file contents that the agent itself cannot produce any more (external truncation to k>0) is undetectable without a checksum and is not claimed."),
+ "C17": dict(engine="c17reload", category="exploration", design="§3 C17",
+   technique="schedule-controlled model-based testing: the real ReloadableOrchestrator between gated recording fakes, schedules generated by rapid and explored systematically (stateless DFS); history invariants as oracle; end-to-end reload scenarios in the e2e engine",
+   text="run.NewReloadableOrchestrator runs with recording fake downstream orchestrators/sinks and a scripted InitiateReloadingFunc; connection actors (NewSink, Accepts, socket closed, final flush, Close; descriptor reuse as the real listener produces it) and reloads with valid/invalid configuration (hook H4) are goroutines whose every call into a fake is a gate, released one at a time by the generated schedule, so the windows 'downstream sink created but not yet registered', 'reload between Accept and Close' and 'old sink closing while the slot is reused' are reached deterministically. Four small scenarios are explored systematically (all schedules up to a bound), larger ones are drawn. The history must show: nothing reaches a sink or orchestrator after its Shutdown/Close, every batch reaches exactly one live downstream sink, a failed reload has no downstream effect and counts one failure, every sink of the live orchestrator is closed exactly once, exactly one orchestrator remains, no panic, no deadlock.",
+   note="Interleavings inside the lock-protected sections are not controlled; an actor blocked on the orchestrator's lock is recognised by a 3 ms quiescence heuristic, which can only change which schedule is explored, never the verdict. The thorough tier repeats the runs under -race. New-configuration compatibility rules and real SIGHUP delivery are exercised by the end-to-end engine."),
 }
 
 NOT_YET = {}
